@@ -10,6 +10,7 @@ import OpwVerif.Lemmas.SrcTieReal
 import OpwVerif.Lemmas.SrcTie
 import OpwVerif.Lemmas.SrcCtlTie
 import OpwVerif.Lemmas.SrcWrapTie
+import OpwVerif.Lemmas.SrcOpwTie
 namespace Opw.Tie
 open Opw
 
@@ -144,6 +145,25 @@ theorem parallelogram_is_source (i : Kin R) (s : R) (d c : Nat) (pose : Iso R) (
     SrcWrap.paraInverseContinuing5dof i s d c pose prev = (Kin.para i s d c).inverseContinuing5dof pose prev ∧
     SrcWrap.paraForward i s d c q = (Kin.para i s d c).forward q ∧ SrcWrap.paraLinks i s d c q = (Kin.para i s d c).links q :=
   ⟨paraInverse_eq .., paraInverseContinuing_eq .., paraInverse5dof_eq .., paraInverseContinuing5dof_eq .., paraForward_eq .., paraLinks_eq ..⟩
+
+/-- [G] the entry points of the bare solver as the CURRENT source text composes them are the model's: `inverse` (5-DOF
+robots go to `inverse_5dof` with J6 = 0, the others filter `inverse_intern`), `inverse_5dof`, `inverse_continuing_5dof` (J6 is
+`prev[5]` as given; the CONSTRAINT_CENTERED sentinel only resolves the reference vector; normalise next to the reference, then
+sort, then filter) and `inverse_continuing` around its shift loop (5-DOF dispatch, sentinel, normalise, sort, filter); the limit
+filter keeps, in order, the vectors whose six joints are all inside their arcs -/
+theorem opw_entry_points_are_source (k : Opw R) (pose : Iso R) (prev s : J6 R) (j6 : R) (l : List (J6 R)) :
+    SrcOpw.inverseSrc k pose = k.inverse pose ∧ SrcOpw.inverse5dofSrc k pose j6 = k.inverse5dof pose j6 ∧
+    SrcOpw.inverseContinuing5dofSrc k pose prev = k.inverseContinuing5dof pose prev ∧
+    SrcOpw.inverseContinuingSrc k pose prev = k.inverseContinuing pose prev ∧
+    SrcOpw.filterCompliantSrc k l = k.filterCompliant l ∧ SrcOpw.compliantOptSrc k s = k.compliant s ∧
+    SrcOpw.constraintCentersSrc k = k.constraintCenters :=
+  ⟨inverseSrc_eq k pose, inverse5dofSrc_eq k pose j6, inverseContinuing5dofSrc_eq k pose prev, inverseContinuingSrc_eq k pose prev,
+   filterCompliantSrc_eq k l, compliantOptSrc_eq k s, constraintCentersSrc_eq k⟩
+
+/-- [G] `Constraints::compliant` / `Constraints::filter` as the CURRENT source text defines them -/
+theorem constraints_compliant_is_source (c : Constraints R) (a : J6 R) (l : List (J6 R)) :
+    SrcOpw.compliantSrc c a = c.compliant a ∧ SrcOpw.filterSrc c l = c.filter l :=
+  ⟨compliantSrc_eq c a, filterSrc_eq c l⟩
 
 /-- [G] the joint limits and the singularity report of a tool / base / frame / parallelogram wrapper, as the CURRENT source
 text defines them, are those of the robot it wraps (the model's `Kin.constraints`, `Kin.singularity`) -/
